@@ -17,7 +17,7 @@ import sys
 import time
 
 ROOT = os.path.dirname(os.path.dirname(os.path.abspath(__file__)))
-COQ = os.path.join(ROOT, "coq")
+COQ = os.environ.get("VERIF_COQ", os.path.join(ROOT, "coq"))   # scratch runs against seeded copies of /repo use their own copy
 BUILD = os.environ.get("VERIF_BUILD", os.path.join(ROOT, "build"))
 OUT = os.environ.get("VERIF_OUT", ROOT)   # evidence/ and replays/ go here (scratch runs against seeded copies set it)
 REPO = os.environ.get("VERIF_REPO", "/repo")
@@ -142,7 +142,25 @@ Definition DEFAULT_COMMENT : string := "%s".
     if old != txt:
         with open(path, "w") as f:
             f.write(txt)
+    gen_kernels()
     return c
+
+
+def gen_kernels():
+    """Gen/KernelsGen.v: the numeric kernels translated from the current source text (harness/pytrans.py).
+    If the source left the translatable subset the file is replaced by one that does not compile, so that the
+    equality obligations in Proofs/KernelsGenEq.v (and the property theorems that cite them) break."""
+    import pytrans
+    try:
+        txt = pytrans.generate(REPO)
+    except pytrans.Unsupported as ex:
+        txt = ("(* GENERATED: harness/pytrans.py could not translate the current source: %s *)\n"
+               "Definition translation_failed : True := untranslatable_source.\n" % str(ex).replace("*)", "* )"))
+    path = os.path.join(COQ, "Gen", "KernelsGen.v")
+    old = open(path).read() if os.path.exists(path) else None
+    if old != txt:
+        with open(path, "w") as f:
+            f.write(txt)
 
 
 def ensure_makefile():
@@ -369,7 +387,12 @@ def run_coq_cases(cid, name, header, cases, shard=300, timeout=900, jobs=16):
                     "  filter (fun p => negb (Nat.eqb (snd p) 0)) (combine (seq %d (length l)) l).\n" % k)
             f.write("Eval vm_compute in (nonzero cases).\n")
         files.append(fn)
-    # make sure the Corr cone is built
+    # make sure the Corr cone the header imports is built (it is not in the cone of Props/Cxx.vo)
+    targets = sorted(set("Corr/%s.vo" % m for m in re.findall(r"\bCorr\.(\w+)", header)))
+    if targets:
+        rc, out = coq_make(targets, timeout=1500)
+        if rc != 0:
+            return None, "make %s failed:\n%s" % (" ".join(targets), out[-2000:])
     procs = []
     results = {}
     log = []
